@@ -175,6 +175,24 @@ def r07_7(prog, rep):
                        'library code disables a layer that may be ENCRYPT', body.loc(b.idx))
     if n == 0:
         rep.ob('R07.7', True, 'R07.7|mla|layer-set-only-through-setters', 'no library function rewrites the enabled-layer set of a writer configuration', '-')
+    # the setters do what their names say: enable_layer only adds (an `|` of the old set and the argument -- not `^`, which drops ENCRYPT when it is enabled
+    # twice), disable_layer only removes (`& !`)
+    ADD = {'bitor_assign', 'bitor', 'union', 'insert'}
+    DEL = {'bitand_assign', 'bitand', 'remove', 'difference', 'not', 'complement'}
+    XOR = {'bitxor', 'bitxor_assign', 'toggle', 'symmetric_difference'}
+    for body in defs:
+        if body.name not in ('enable_layer', 'disable_layer'):
+            continue
+        rep.fn(body)
+        calls_ = {b.term.cmethod for b in body.calls() if not b.cleanup}
+        bins_ = {st.rv.j.get('op') for bl in body.blocks if not bl.cleanup for st in bl.stmts if st.kind == 'assign' and st.rv.r in ('binop', 'unop')}
+        adds = bool(calls_ & ADD) or 'BitOr' in bins_
+        dels = bool(calls_ & DEL) or 'BitAnd' in bins_ or 'Not' in bins_
+        xors = bool(calls_ & XOR) or 'BitXor' in bins_
+        ok = (adds and not dels and not xors) if body.name == 'enable_layer' else (dels and not adds and not xors and ('BitAnd' in bins_ or bool(calls_ & {'bitand_assign', 'bitand', 'remove', 'difference'})))
+        rep.ob('R07.7', ok, 'R07.7|%s|setter-semantics' % body.nkey, '%s only %s layers' % (body.name, 'adds' if body.name == 'enable_layer' else 'removes') if ok else
+               '%s does not compute `old %s layer` (operations: %s): enabling a layer that is already enabled, or a second call, can switch ENCRYPT off and the archive is '
+               'written in clear' % (body.name, '| ' if body.name == 'enable_layer' else '& !', ', '.join(sorted((calls_ & (ADD | DEL | XOR)) | {str(x) for x in bins_ if x in ('BitOr', 'BitAnd', 'BitXor', 'Not')})) or 'none'), body.loc())
 
 
 def census_describe(body, op):
